@@ -52,10 +52,10 @@ ASSUMPTIONS = [
 ]
 
 KINDS = c08.KINDS
-STATEFUL = {'busy_str', 'badchunk_sizeline', 'echo_get', 'echo_post', 'echo_put', 'echo_head', 'upload', 'raise_resp', 'gen', 'crash', 'teapot', 'chunked_ok',
+STATEFUL = {'upload_typed', 'busy_str', 'badchunk_sizeline', 'echo_get', 'echo_post', 'echo_put', 'echo_head', 'upload', 'raise_resp', 'gen', 'crash', 'teapot', 'chunked_ok',
             'hookcrash', 'raise_err'}
 FAILING = ['notfound', 'notallowed', 'json404', 'badchunk', 'big', 'badpath', 'crash', 'hookcrash', 'raise_err', 'teapot',
-           'badchunk_json', 'badjson', 'badchunk', 'big', 'badchunk_sizeline', 'limit_num']
+           'badchunk_json', 'badjson', 'badchunk', 'big', 'badchunk_sizeline', 'limit_num', 'badmultipart', 'upload_plain']
 RETAIN_MAX = 6
 
 
@@ -77,6 +77,12 @@ def gen_case(rng, tier):
     if rng.random() < 0.06:
         target = rng.choice([50, 200, 1000] if tier == 'quick' else [50, 200, 1000, 3000])
         repeat = max(1, target // n)
+        if rng.random() < 0.5:
+            # a homogeneous run: N requests that all fail the same way (a mixed history lets one kind of failure
+            # release what another kind had piled up)
+            kind = rng.choice([k for k in FAILING if k not in ('raise_err', 'teapot')])
+            specs = [c08.gen_spec(rng, i, kind) for i in range(rng.choice([1, 2, 3]))]
+            repeat = max(1, target // len(specs))
     return {'history': specs, 'cfg': cfg, 'repeat': repeat}
 
 
